@@ -29,6 +29,7 @@ type Result struct {
 	Seed         int64            `json:"seed"`
 	Evaluations  int64            `json:"evaluations"`
 	Distinct     []string         `json:"distinct"`
+	DistinctMore int64            `json:"distinct_more"` // distinct classes beyond the listed ones (the list is capped)
 	Rule         string           `json:"rule"`
 	Samples      []any            `json:"samples"`
 	Observations map[string]int64 `json:"observations"`
@@ -78,7 +79,7 @@ func (r *Result) DistinctKey(format string, a ...any) {
 
 func (r *Result) DistinctHash(x uint64) {
 	r.mu.Lock()
-	if len(r.distinct) < 200000 {
+	if len(r.distinct) < 4000000 {
 		r.distinct[x] = struct{}{}
 	}
 	r.mu.Unlock()
@@ -129,10 +130,20 @@ func (r *Result) Write(path string) error {
 	r.mu.Lock()
 	defer r.mu.Unlock()
 	r.Distinct = r.Distinct[:0]
+	keys := make([]uint64, 0, len(r.distinct))
 	for k := range r.distinct {
+		keys = append(keys, k)
+	}
+	sort.Slice(keys, func(i, j int) bool { return keys[i] < keys[j] })
+	const listCap = 60000
+	r.DistinctMore = 0
+	if len(keys) > listCap {
+		r.DistinctMore = int64(len(keys) - listCap)
+		keys = keys[:listCap]
+	}
+	for _, k := range keys {
 		r.Distinct = append(r.Distinct, fmt.Sprintf("%x", k))
 	}
-	sort.Strings(r.Distinct)
 	for sig, n := range r.vioSeen {
 		r.Observations["violations["+sig+"]"] = int64(n)
 	}
